@@ -144,7 +144,14 @@ W_POOL = [
              "projs": [{"id": "pr0", "pre": "p0", "post": "p1", "syn": "syn0", "conns": [[0, "../p0[0]", "../p1/0/iaf0"]]}],
              "ilists": [{"id": "il0", "comp": "pg1", "pop": "p0", "inputs": [[0, "../p0[1]"]]}]}},
 ]
+W_POOL.append({"name": "w_plain.nml.h5", "kind": "h5", "items": [["iaf_cells", "iafp"]], "includes": [],
+               "net": {"id": "wplain", "pops": [{"id": "p0", "comp": "iafp", "size": 2},
+                                                {"id": "p1", "comp": "iafp", "size": 1, "instances": [[0, 1, 2, 3]]}],
+                       "projs": [{"id": "pr0", "pre": "p0", "post": "p1", "syn": "nosyn", "conns": [[0, "../p0[0]", "../p1/0/iafp"]]}]}})
 W_HIST = [
+    ("optimized HDF5 load without includes, document used (append + iterate), second optimized load: the default index "
+     "table of the new document's lists is the one the first document wrote into",
+     [{"ep": "h5", "name": "w_plain.nml.h5", "opt": True, "use": True}, {"ep": "h5", "name": "w_plain.nml.h5", "opt": True}]),
     ("string twice (default already_included list)",
      [{"ep": "string", "name": "w_main.nml", "incl": True}, {"ep": "string", "name": "w_main.nml", "incl": True}]),
     ("HDF5 load twice (embedded XML read with the default list)",
@@ -312,14 +319,12 @@ def classify_hist_diff(fresh, got):
         return "included-components-missing" if gi < fi else "components-differ"
     if fresh.get("includes") != got.get("includes"):
         return "includes-differ"
+    if fresh.get("meta") != got.get("meta"):
+        return "document-attributes-differ"
     if fresh.get("nets") != got.get("nets"):
-        def strip(nets):
-            return json.loads(json.dumps(nets), object_hook=None)
-        # index tables of default-constructed optimized lists are part of the returned document
-        fa = json.dumps(fresh["nets"])
-        ga = json.dumps(got["nets"])
-        return "optimized-list-index-table-differs" if ("pre_cell_id" in ga or '"x"' in ga or '"id"' in ga) and fa != ga and \
-            _without_indices(fresh["nets"]) == _without_indices(got["nets"]) else "network-structure-differs"
+        # the index tables of default-constructed optimized lists are part of the returned document
+        return "optimized-list-index-table-differs" if _without_indices(fresh["nets"]) == _without_indices(got["nets"]) \
+            else "network-structure-differs"
     if fresh.get("handler") != got.get("handler"):
         return "handler-document-differs"
     return None
@@ -330,13 +335,12 @@ def _without_indices(nets):
     for n in out:
         for lst in (n["pops"], n["projs"], n["ilists"]):
             for e in lst:
-                while e and isinstance(e[-1], list) and e[-1] and isinstance(e[-1][0], list) and len(e[-1][0]) == 2 \
-                        and isinstance(e[-1][0][0], str) and isinstance(e[-1][0][1], int):
+                while e and isinstance(e[-1], dict) and "indices" in e[-1]:
                     e.pop()
     return out
 
 
-def run_histories(ck, d, tmp, modes_known):
+def run_histories(ck, d, tmp, modes_known, pi=0):
     rng = ck.rng
     pool = gen_pool(rng, ck.n(7, 10))
     calls = gen_calls(rng, pool)
@@ -349,7 +353,7 @@ def run_histories(ck, d, tmp, modes_known):
                 idx[k] = len(calls)
                 calls.append(c)
         hists.append([idx[json.dumps(c, sort_keys=True)] for c in h])
-    hists += gen_histories(rng, calls, ck.n(45, 500))
+    hists += gen_histories(rng, calls, ck.n(45, 400))
     used = sorted({i for h in hists for i in h})
     jobs = [{"kind": "history", "calls": [calls[i]]} for i in used] + \
            [{"kind": "history", "calls": [calls[i] for i in h]} for h in hists]
@@ -373,7 +377,7 @@ def run_histories(ck, d, tmp, modes_known):
             c = calls[ci]
             nontriv = pos > 0 and (c.get("incl") or c["ep"] in ("h5", "xmlparser") or c["name"].endswith(".h5"))
             ck.count(1, nontrivial_key=("hist", [calls[x] for x in h[:pos + 1]]) if nontriv else None,
-                     sample={"history": [calls[x] for x in h], "position": pos} if hi == len(W_HIST) and pos == 1 else None)
+                     sample={"history": [calls[x] for x in h], "position": pos} if pi == 0 and hi == len(W_HIST) and pos == 1 else None)
             ck.tally("history-call:" + c["ep"] + (":includes" if c.get("incl") else ""))
             cls = classify_hist_diff(fresh[ci], r)
             if cls:
@@ -385,9 +389,10 @@ def run_histories(ck, d, tmp, modes_known):
                                   "calls": [calls[x] for x in h[:pos + 1]]},
                            expected=brief(fresh[ci]), observed=brief(r), broken="Inst_C07_defaults.v:defaults_ok")
         ck.tally("history-length:%d" % len(h))
-    ck.extra["history_positions_differing_from_fresh"] = nw
-    ck.extra["distinct_loader_calls"] = len(used)
-    ck.extra["histories"] = len(hists)
+    ck.extra["history_positions_differing_from_fresh"] = ck.extra.get("history_positions_differing_from_fresh", 0) + nw
+    ck.extra["distinct_loader_calls"] = ck.extra.get("distinct_loader_calls", 0) + len(used)
+    ck.extra["histories"] = ck.extra.get("histories", 0) + len(hists)
+    ck.extra["file_pools"] = pi + 1
     # ---- the Coq loader model on the same histories (modes of the generated table)
     if modes_known:
         chunk = 250
@@ -404,14 +409,14 @@ def run_histories(ck, d, tmp, modes_known):
                 terms.append("chk %s %s" % (coq_list([model_call(tmp, calls[x]) for x in h]),
                                             coq_list([impl_res_term(r) for r in rs])))
             lines.append("Eval vm_compute in (mismatches %s)." % coq_list(terms).replace("; chk", ";\n  chk"))
-            ok, res, o = ck.coq_eval("Cases_C07_hist_%d.v" % (k // chunk), "\n".join(lines) + "\n")
-            ck.oblige("correspondence:loader-model:%d" % (k // chunk), ok, o[-1500:], kind="correspondence")
+            ok, res, o = ck.coq_eval("Cases_C07_hist_%d_%d.v" % (pi, k // chunk), "\n".join(lines) + "\n")
+            ck.oblige("correspondence:loader-model:%d:%d" % (pi, k // chunk), ok, o[-1500:], kind="correspondence")
             if ok:
                 bad = parse_nat_list(res[0]) if res else []
                 for bi in bad[:5]:
                     h, rs = part[bi]
                     ck.disagree("State.exec_call (loaders)", {"calls": [calls[x] for x in h]},
-                                "see Cases_C07_hist_%d.v case %d" % (k // chunk, bi), [brief(r) for r in rs])
+                                "see Cases_C07_hist_%d_%d.v case %d" % (pi, k // chunk, bi), [brief(r) for r in rs])
                 ck.extra["loader_model_cases"] = ck.extra.get("loader_model_cases", 0) + len(part)
     return pool
 
@@ -431,7 +436,7 @@ def prune_pool(pool, calls):
 def brief(r):
     if not r.get("ok"):
         return {"raised": r.get("err")}
-    out = {"items": r["items"]}
+    out = {"items": r["items"], "meta": r.get("meta")}
     if r.get("includes"):
         out["includes"] = r["includes"]
     if r.get("nets"):
@@ -569,7 +574,7 @@ def first_diff(a, c):
 
 def run_schedules(ck, tmp, pool, placement_known):
     rng = ck.rng
-    npairs = ck.n(14, 160)
+    npairs = ck.n(14, 320)
     streams, scheds = [], []
     # the stored witness first
     wa = [["doc", "docA"], ["net", "netA"], ["pop", "p", "cellA", 1], ["loc", 0, "p", 1, 2, 3]]
@@ -585,7 +590,7 @@ def run_schedules(ck, tmp, pool, placement_known):
     # parser-driven pairs over the pool files that carry a network
     netfiles = [f["name"] for f in pool if f.get("net") and not f["name"].startswith("w_")]
     ppairs = []
-    for i in range(ck.n(4, 12)):
+    for i in range(ck.n(4, 30)):
         fa, fb = rng.sample(netfiles, 2) if rng.random() < 0.8 else [rng.choice(netfiles)] * 2
         order = rng.choice(["alt", "ab", "binside", [rng.randrange(2) for _ in range(60)]])
         ppairs.append((fa, fb, order))
@@ -723,13 +728,15 @@ def run(ck):
     # a global that is written AND read is a cache: name it as the failing program point; the histories below look for an input
     for g in d["globals"]:
         ck.tally("table:written-global")
-    tmp = tempfile.mkdtemp(prefix="c07_")
-    try:
-        gen_ok = bool(inst_ok)
-        pool = run_histories(ck, d, tmp, gen_ok)
-        run_schedules(ck, tmp, pool, gen_ok)
-    finally:
-        shutil.rmtree(tmp, ignore_errors=True)
+    gen_ok = bool(inst_ok)
+    for pi in range(ck.n(1, 4)):
+        tmp = tempfile.mkdtemp(prefix="c07_")
+        try:
+            pool = run_histories(ck, d, tmp, gen_ok, pi)
+            if pi == 0:
+                run_schedules(ck, tmp, pool, gen_ok)
+        finally:
+            shutil.rmtree(tmp, ignore_errors=True)
 
 
 # ---------------------------------------------------------------------------------------------- replay
